@@ -26,13 +26,13 @@ theorem exAffine_emit (s : St (Ext K)) :
       = .ok ((), { s with rows := s.rows ++ [exRow] }) := by
   rw [emitConstraint_ok]
   refine ⟨.bin .sub (.var "x") (.var "y"), ⟨[("x", Ext.fin 1), ("y", Ext.fin (-1))], Ext.fin 0⟩, s, ?_, ?_, ?_⟩
-  · simp [flattenFuel, flattenF]
-  · simp [simplify, subCore, linExp, bind_ok, pure_ok]
+  · simp [normalizeExp, flattenFuel, flattenF, simplify, subCore]
+  · simp [linExp, bind_ok, pure_ok]
     simp [Ctx.mergeSub, fromVar_eq, Ctx.addVar, Ctx.addRhs]
   · simp [exRow]
 
 theorem exAffine_sf (x : String) (s : St (Ext K)) : simplifyFlat (.var x : Exp (Ext K)) s = .ok (.var x, s) := by
-  simp [simplifyFlat, flattenFuel, flattenF, simplify, pure_ok]
+  simp [simplifyFlat, normalizeExp, flattenFuel, flattenF, simplify, pure_ok]
 
 theorem exAffine_proc (s : St (Ext K)) : processConstraint
     ({ name := "c", lhs := .var "x", cmp := .le, rhs := .var "y", isAssert := false } : Constraint (Ext K)) s
